@@ -11,7 +11,8 @@ import NeumannModel.KV.Model
     answer: trace <t>:<site>:<key>,…  | hist <t>.<i>:<inv>-<ret>:<res>,… | image <key>=<get>/<exists>/<inscan>,…
             | wal <records> | rimage <image of the store recovered from the log>   (last two only with wal=1)
             | q=<1 when every thread finished>
-    witness emb_mixture | witness durable_order  →  `<wal> <programs> <schedule>` of the Lean witness theorems
+    witness emb_mixture | witness durable_order | witness delete_skip_if_absent
+                    →  `<wal> <programs> <schedule>` of the Lean witness theorems
     lin <hist>  — not implemented (answers bad-op); the harness has its own Wing–Gong checker.
 -/
 open Neumann Neumann.Proto Neumann.KV
@@ -155,6 +156,7 @@ def kvStep (_ : Unit) (line : String) : Unit × String :=
       | _, _ => bad
   | ["witness", "emb_mixture"] => ((), s!"0 {showProgs embMixtureProgs} {showNats embMixtureSched}")
   | ["witness", "durable_order"] => ((), s!"1 {showProgs durableOrderProgs} {showNats durableOrderSched}")
+  | ["witness", "delete_skip_if_absent"] => ((), s!"1 {showProgs putDeleteAbsentProgs} {showNats putDeleteAbsentSched}")
   | _ => bad
 
 def main : IO Unit := run kvStep ()
